@@ -48,10 +48,11 @@ def vols_struct(dic):
 
 
 def surf_key(s):
+    """definition key mirroring SurfaceT4.__eq__ (type, parameters, transform; == on floats, so -0.0 = 0.0)"""
     tr = None
     if s.transform is not None:
-        tr = (tuple(float(x) for x in s.transform[0].flat), tuple(float(x) for x in s.transform[1].flat))
-    return repr((s.type_surface.name, tuple(float(x) for x in s.param_surface), tr)).encode().hex()
+        tr = (tuple(float(x) + 0.0 for x in s.transform[0].flat), tuple(float(x) + 0.0 for x in s.transform[1].flat))
+    return repr((s.type_surface.name, tuple(float(x) + 0.0 for x in s.param_surface), tr)).encode().hex()
 
 
 class Capture:
